@@ -224,6 +224,25 @@ def d2(ctx, F):
             names = [e.get("vn") for e in q["p"] if isinstance(e, dict) and "v" in e]
             if names == ["Some", "Err"]:
                 passthrough = True
+    # .. and the framed halves of the BiStream hand the transport's errors up as they come: the recoverable kinds are recognised by their
+    # io::ErrorKind, so a "more precise" re-typing below the client makes every write-side outage unrecoverable
+    nb = 0
+    for im in F.impls:
+        if im.get("trait") not in ("futures_sink::Sink", "futures_core::stream::Stream") or not (im.get("self_adt") or "").startswith("selium_protocol::bistream::"):
+            continue
+        for m_, path_ in sorted(im.get("items", {}).items()):
+            b_ = F.bodies.get(path_)
+            if b_ is None or not m_.startswith("poll_"):
+                continue
+            nb += 1
+            ctx.touch(b_)
+            ib_ = F.inlined(b_, only=("selium_protocol::",))
+            remap = [c for c in ib_.calls() if c.name() in ("map_err", "map", "map_ok", "or_else", "and_then") and ("Poll" in (c.self_ty or "") or "Result" in (c.self_ty or "") or "poll" in c.callee.lower() or "result" in c.callee.lower())]
+            built = [s_ for i_, j_, pl_, rv_, s_ in ib_.assigns() if rv_["k"] == "agg" and rv_.get("adt") in ("selium_std::errors::SeliumError", "selium_std::errors::QuicError")]
+            ctx.check(not remap and not built, "C12.D2.transport-error-unchanged", "bistream:%s:%s-retypes-error" % ((im.get("self_adt") or "").rsplit("::", 1)[-1], m_),
+                      "%s::%s returns the framed transport's result as it is (no error re-typing between the wire and is_recoverable_error)" % ((im.get("self_adt") or "").rsplit("::", 1)[-1], m_),
+                      (remap[0].span if remap else built[0].get("span", b_.span) if built else b_.span))
+    ctx.check(nb >= 4, "C12.D2.transport-error-unchanged", "bistream:poll-fns-missing", "the poll functions of the BiStream halves were analysed (%d)" % nb)
     ctx.check(passthrough, "C12.D2.transport-error-unchanged", "handle_reply:transport-error-rewrapped",
               "handle_reply returns a stream error met during registration unchanged (so that a connection lost mid-registration stays recoverable)", hr.span)
     ide = F.body(KA + "helpers::is_disconnect_error")
@@ -359,8 +378,45 @@ def d5(ctx, F):
     ctx.floor("C12.D5.poll-fns", n, 4)
 
 
+def d6(ctx, F):
+    """(a) a replier keeps serving: KeepAlive<Replier>::listen never returns Ok — every end of the stream, orderly or not, leads to a
+    reconnect episode or to an error; (b) "re-registers with the same settings": the headers a stream re-registers with are the ones it
+    was opened with — get_headers returns a clone of the stored headers, nothing rebuilt"""
+    lb = F.one_body(r"^selium::keep_alive::reqrep::KeepAlive::<selium::streams::request_reply::replier::Replier<E, D, F, ReqItem, ResItem>>::listen::\{closure#0\}$")
+    ctx.touch(lb)
+    ib = F.inlined(lb, only=("selium::keep_alive::",), keep=[p_ for p_ in F.bodies if "try_reconnect" in p_])
+    retl = K.return_locals(ib)
+    oks = []
+    for i, j, pl, rv, s in ib.assigns():
+        if rv["k"] == "agg" and rv.get("adt") == "core::result::Result" and rv.get("variant") == "Ok":
+            # Ok(()) that becomes the value of the coroutine: Poll::Ready(Ok(..)) built from it, or assigned to the return place
+            fl = flow.derived(ib, {pl["l"]}, calls=())
+            if fl & retl or pl["l"] in retl:
+                oks.append(s.get("span", lb.span))
+    ctx.check(not oks, "C12.D3.replier-keeps-listening", "listen:returns-ok", "KeepAlive<Replier>::listen has no Ok return: the end of its stream always leads to a reconnect episode or an error", (oks or [lb.span])[0])
+    n = 0
+    for im in F.impls_of(TRAIT):
+        path_ = im.get("items", {}).get("get_headers")
+        b_ = F.bodies.get(path_ or "")
+        if b_ is None:
+            continue
+        n += 1
+        ctx.touch(b_)
+        ib_ = F.inlined(b_, keep=[p2 for p2 in F.bodies if "core::clone::Clone>::clone" in p2])
+        built = [s_ for i_, j_, pl_, rv_, s_ in ib_.assigns() if rv_["k"] == "agg" and rv_.get("agg") == "adt" and rv_.get("adt", "").startswith("selium_protocol::")]
+        clones = [c for c in b_.calls() if c.name() == "clone"]
+        ok = not built and len(clones) == 1 and clones[0].dest is not None and (clones[0].dest["l"] == 0 or 0 in flow.derived(b_, {clones[0].dest["l"]}, calls=()))
+        if ok:
+            r_ = flow.root(b_, clones[0].args[0], through_calls=())
+            ok = r_[0] == "rv" and r_[1]["k"] == "ref" and r_[1]["pl"]["l"] == 1 and len([e for e in r_[1]["pl"]["p"] if isinstance(e, int)]) == 1
+        ctx.check(ok, "C12.D4.same-settings", "get_headers:rebuilt:%s" % (im.get("self_adt") or "").rsplit("::", 1)[-1],
+                  "%s re-registers with a clone of the headers it was opened with (nothing rebuilt or overridden)" % (im.get("self_adt") or "").rsplit("::", 1)[-1], b_.span)
+    ctx.floor("C12.D4.same-settings.impls", n, 4)
+
+
 def run(ctx):
     F = ctx.facts("quick")
+    d6(ctx, F)
     d5(ctx, F)
     d1(ctx, F)
     d2(ctx, F)
